@@ -22,7 +22,7 @@ CHECKS = {
             "trusted: substrate (conformance-tested), fold, Inv; kinds enumerated by solver-driven realisation; bounds: 2 containers over {a,a/x,a@k}, 3 over {a,a/x}; 8 follow-up operations; IH5Record + IH5MFRecord",
             "4/C05"),
     "C10": ("CrossHair/z3 exploration of symbolic container stacks written as IH5MFRecord records on the in-memory file system through the real skeleton.py/manifest.py: stub skeleton == real, no data in the stub, merge refused, stub-made patch == direct update on the real record, manifest sidecar == container (hash, uuid, skeleton) after every commit, extensions persist; counterexamples replayed as public-API histories on real h5py",
-            "trusted: substrate (conformance-tested), fold/Inv; kinds enumerated by solver-driven realisation; bounds: 2 containers over {a,a/x,a@k}, 12 existence-based updates; manifest histories of 3 steps over 7 actions (commit, override, interrupted patch reopened r+/a/r, discard, close+reopen) x tamper",
+            "trusted: substrate (conformance-tested), fold/Inv; kinds enumerated by solver-driven realisation; bounds: 2 containers over {a,a/x,a@k}, 12 existence-based updates; manifest histories of 3 steps over 8 actions (commit, override, interrupted patch reopened r+/a/r, discard, close+reopen, refused commit) x tamper",
             "4/C10"),
     "C11": ("CrossHair/z3 exploration with a symbolic crash point: torn user-block write at every cut through the real IH5UserBlock.load/_open, and simulated process death at every mutating file-system primitive during create/fill/commit of a patch through the real IH5Record/IH5MFRecord; byte identity of committed files + three-way outcome oracle",
             "trusted: substrate with crash injection; prefix model of the user-block write; SHA-256 idealised; kills inside HDF5 library writes and fsync/reordering effects are outside; torn-write counterexamples replayed on real h5py files",
